@@ -213,3 +213,68 @@ for _sec, _last, _until in ((None, None, None), (8, None, None), (8, 5, None), (
                bounds='current epoch 10; user snapshots at epoch 3%s; another user from epoch 6; farm epochs [4,12); last claimed %s; until_epoch %s; '
                       'weights, rate, budgets symbolic' % ('' if _sec is None else ' and %d' % _sec, _last, _until),
                covers=['ok'], replay=replay_scn(_sec, _last, actions=[('alice', _until)]))(_ob_l3(_sec, _last, _until))
+
+
+def _ob_query_equals_claim(alice_second, last_a, until):
+    def s(I):
+        sc = Scn(I, alice_second=alice_second, last_a=last_a, farms=((4, 12), (2, 9)))
+        b = sc.b
+        qs, resp = sc.query_rewards('alice', until)
+        pre = b.snapshot()
+        st, r = sc.claim('alice', until)
+        if st != 'ok':
+            I.outcome('claim_rejected')
+            return
+        I.cover('ok', HINT)
+        I.observe('status', 'ok')
+        observe_claim_state(I, sc, users=('alice',))
+        I.check('query_succeeds_when_claim_does', qs == 'ok')
+        if qs != 'ok':
+            return
+        paid = simp(b.get('alice', 'uusd') - pre.get('alice', 'uusd'))
+        I.check('query_total_equals_claim_payment', smt.Eq(coins_total(resp.get('total_rewards'), 'uusd'), paid))
+    return s
+
+
+for _sec, _last, _until in ((8, None, None), (8, 5, 9), (None, None, 7)):
+    obligation('C07', 'Q1.rewards_query_equals_claim_snap%s_last%s_until%s' % (_sec, _last, _until),
+               entries=['query', 'query_rewards', 'calculate_rewards', 'execute', 'claim'], kind='R',
+               statement='from the same state the Rewards query total equals what an immediate Claim pays (two farms paying the same denom)',
+               bounds='as L3, two farms with epochs [4,12) and [2,9)', covers=['ok'],
+               replay=replay_scn(_sec, _last, farms=((4, 12), (2, 9)), actions=[('alice', _until)]))(_ob_query_equals_claim(_sec, _last, _until))
+
+
+def _ob_schedule(alice_second, last_a, k):
+    def s(I):
+        sc = Scn(I, alice_second=alice_second, last_a=last_a)
+        b = sc.b
+        start = sc.chain.snapshot()
+        pre = b.get('alice', 'uusd')
+        # schedule 1: one claim at the end
+        st1, _ = sc.claim('alice', None)
+        once = simp(b.get('alice', 'uusd') - pre)
+        sc.chain.restore(start)
+        b = bank_of(I)
+        sc.b = b
+        # schedule 2: claim up to epoch k, then claim the rest
+        st2a, _ = sc.claim('alice', k)
+        st2b, _ = sc.claim('alice', None)
+        split = simp(b.get('alice', 'uusd') - pre)
+        if st1 != 'ok':
+            I.outcome('single_claim_rejected')
+            return
+        I.cover('ok', HINT)
+        I.observe('status', 'ok' if st2b == 'ok' else 'err')
+        observe_claim_state(I, sc, users=('alice',))
+        I.check('split_claims_succeed_when_single_does', st2a == 'ok' and st2b == 'ok')
+        if st2a == 'ok' and st2b == 'ok':
+            I.check('same_total_for_any_split', smt.Eq(split, once))
+    return s
+
+
+for _sec, _last, _k in ((8, None, 7), (8, None, 8), (8, 5, 6), (None, None, 5), (8, None, 3)):
+    obligation('C07', 'R1.schedule_independence_snap%s_last%s_split%s' % (_sec, _last, _k),
+               entries=['execute', 'claim', 'calculate_rewards', 'sync_address_lp_weight_history'], kind='R',
+               statement='claim(until_epoch = k) followed by claim() pays the same total as a single claim(), for the same state',
+               bounds='as L3; split epoch %s' % _k, covers=['ok'],
+               replay=replay_scn(_sec, _last, actions=[('alice', _k), ('alice', None)]))(_ob_schedule(_sec, _last, _k))
